@@ -1,11 +1,16 @@
 """
 C04 — tar <-> SquashFS conversion preserves the archive; byte-exact fix-point.
 
-Proof: lean/Sqfs/Props/C04.lean (number / checksum / header / PAX / sparse codecs of lib/tar and the conversion
-steps of tar2sqfs, for all inputs).  Tie:
+Proof: lean/Sqfs/Props/C04.lean (number / checksum / PAX / sparse codecs of lib/tar; the full header round trip
+write_tar_header -> read_header for every entry the writer accepts; decode_header / the extension-record loop for every
+dialect; the tree-level fix-point tar2sqfs . sqfs2tar on the trees of images; the conversion steps of tar2sqfs — for all
+inputs).  Tie:
   (a) unit level — harness/h_c04.c links the *real* lib/tar (static helpers included textually) under
       ASan+UBSan and is run on the same script as `sqfsmodel c04`; the specification predicates are evaluated on
       the implementation's answers (exact-or-error, round trips) to classify any disagreement;
+      `rt` evaluates the full round trip on both sides and `rtspec` the specification (`decodedOf`) on every generated entry;
+      probes with the real tools: xattr names with '='/'%' (two conversion rounds), tar2sqfs -E / --no-skip, sparse files
+      beyond 4 GiB;
   (b) tool level — tools/checks/c04_tools.py: generated archives x options through the real tar2sqfs /
       sqfs2tar / rdsquashfs built from the working tree, GNU tar and Python tarfile as independent readers,
       sha256 fix-point.
@@ -597,7 +602,7 @@ def in_roundtrip_domain(e):
 
 def unit_headers(ctx, harness, stats):
     rng = ctx.rng
-    n = 1500 if ctx.quick() else 30000
+    n = 1500 if ctx.quick() else 12000                       # (8 passes per entry now: enc x4, rt x4)
     es = [gen_wentry(rng) for _ in range(n)]
     lines = [enc_line("enc", e) for e in es]
     rtl = [enc_line("rt", e) for e in es]
@@ -621,27 +626,8 @@ def unit_headers(ctx, harness, stats):
     model_rt = run_model(ctx, rtl)
     raw_rt = run_model(ctx, [enc_line("rtraw", e) for e in es])
     spec_rt = run_model(ctx, [enc_line("rtspec", e) for e in es])
-    # read_header on the writer's own output (correspondence of the reader on exactly these streams)
-    l2, idx = [], []
-    for i, e in enumerate(es):
-        if impl[i].startswith("ok ") and len(impl[i]) < 400000:
-            l2.append("dec " + impl[i][3:] + "00" * 1024); idx.append(i)
-    back, crash3 = run_impl(ctx, harness, l2)
-    if crash3:
-        k, rc, err = crash3
-        ctx.violation("crash:dec", "read_header aborted (rc=%s) on the writer's own output: %s" % (rc, err[-300:]),
-                      {"unit": [l2[min(k, len(l2) - 1)]], "stderr": err})
-        return
-    back_model = run_model(ctx, l2)
     hist = {"kinds": {}, "name_len": {}, "link_len": {}, "ext_records": {"K": 0, "L": 0, "x": 0}, "num_enc": {"octal": 0, "noterm": 0, "b256": 0},
             "keys_with_eq_or_pct": 0, "beyond_reader_limits": 0, "pax_record_len": {}, "roundtrip_eq_spec": 0, "rt_model_eq_impl": 0}
-    diff = [(j, i) for j, i in enumerate(idx) if back[j] != back_model[j]]
-    expl = classify_reader_batch(ctx, "dec", [(l2[j], back[j]) for j, _ in diff], stats)
-    for (j, i), known in zip(diff, expl):
-        stats["disagreements_checked"] += 1
-        if not known:
-            report(ctx, "dec-corr", "dec-corr:" + vlib.sha(l2[j])[:12], "read_header: model and code differ on the writer's output for %s: impl=%s model=%s" % (
-                lines[i][:120], back[j][:300], back_model[j][:300]), {"unit": [l2[j]]}, found_input=False)
     for i, e in enumerate(es):
         hist["kinds"][e["kind"]] = hist["kinds"].get(e["kind"], 0) + 1
         b = "<100" if len(e["name"]) < 100 else ("100" if len(e["name"]) == 100 else (">100" if len(e["name"]) < 65000 else str(len(e["name"]))))
@@ -721,7 +707,7 @@ def unit_headers(ctx, harness, stats):
                 stats["disagreements_checked"] += 1
                 report(ctx, "enc-rt", "header-roundtrip:%s:%s" % (e["kind"], "+".join(bad) or "spec"), "write_tar_header -> read_header loses %s for %s (decodedOf: %s)" % (
                     bad or "?", lines[i][:200], spec_rt[i][:300]), {"unit": [rtl[i], lines[i]], "decoded": impl_rt[i][:400], "expected": spec_rt[i][:400]})
-    stats["evaluations"] += 4 * len(lines) + 4 * len(rtl) + 2 * len(l2)
+    stats["evaluations"] += 4 * len(lines) + 4 * len(rtl)
     stats["enc_entries"] = len(es)
     stats["enc_hist"] = hist
     stats["samples"].append({"op": rtl[0][:200], "impl": impl_rt[0][:300], "spec(decodedOf)": spec_rt[0][:300]})
@@ -1615,7 +1601,7 @@ def tool_option_probes(ctx, harness, stats):
             report(ctx, "optN", "no-skip:" + ("with" if flags else "without"), msg, {"optprobe": {"kind": "no-skip", "archive_hex": tok(arc), "flags": flags}})
     # (c) a sparse file whose holes/offsets lie beyond 4 GiB (64-bit arithmetic of the sparse walk; the Lean model is over Nat and the
     # unit-level generator stays below 1 MiB): tar2sqfs must store exactly the specified expansion
-    for ci, dialect in enumerate(["0.1", "1.0"] if ctx.quick() else ["old", "0.0", "0.1", "1.0"]):
+    for ci, dialect in enumerate([rng.choice(["old", "0.0", "0.1", "1.0"])] if ctx.quick() else ["old", "0.0", "0.1", "1.0"]):
         salt = rng.randrange(1 << 30)
         msg = big_sparse_verdict(ctx, tools, d, str(ci), dialect, salt)
         seen["big_sparse_cases"] = seen.get("big_sparse_cases", 0) + 1
